@@ -23,6 +23,8 @@ MATCHERS = {
     "and-in-type": lambda c: has_op("&")(c["spec"]),
     "xor-in-type": lambda c: has_op("^")(c["spec"]),
     "set-in-type": lambda c: spec_has(c["spec"], lambda s: isinstance(s, tuple) and s and s[0] in ("set", "setc")),
+    "exclude-policy": lambda c: "exclude" in [c["options"].get(k) for k in ("invalid_items", "invalid_keys", "invalid_values")],
+    "union-in-type": lambda c: has_op("|")(c["spec"]) or spec_has(c["spec"], lambda s: isinstance(s, tuple) and s and s[0] == "optional"),
     "preserve-policy": lambda c: "preserve" in [c["options"].get(k) for k in ("invalid_items", "invalid_keys", "invalid_values")],
     "tuple-collect": lambda c: c["options"].get("collect_errors") and
                                spec_has(c["spec"], lambda s: isinstance(s, tuple) and s and s[0] == "tuple"),
